@@ -63,7 +63,7 @@ class Prepared:
         fmt0 = case.get("old_fmt", case["fmt"])
         with K.quiet(t):
             if case.get("sib"):
-                K.add_siblings(t, fmt0)
+                K.add_siblings(t, fmt0, case["sib"])
             if case.get("old") is not None:
                 K.do_write("write_arrays", t.handle(), case["old"], fmt0, overwrite=False)
         self.pre_snap = t.snapshot()
@@ -123,9 +123,19 @@ def run_case(case):
 
 
 def _run_case(case):
+    with K.tmpdir() as tmp:
+        if case["kind"] in K.TILDE_KINDS:
+            with K.home_env(tmp):
+                res = _run_in(case, tmp)
+                res["literal_tilde"] = os.path.exists(os.path.join(os.path.realpath(tmp), "~"))
+                return res
+        return _run_in(case, tmp)
+
+
+def _run_in(case, tmp):
     fmt, kind = case["fmt"], case["kind"]
     res = {"case": case}
-    with K.tmpdir() as tmp:
+    if True:
         P = Prepared(case, tmp)
         res["pre"] = K.model_state(P.pre_snap, P.pre_order if kind == "mem" else None)
         res["pre_read_ok"] = "reject" not in P.pre_read
@@ -139,8 +149,9 @@ def _run_case(case):
             g = K.model_graph({**case["new"], "invalid": None}, fmt, case["entry"])
             if inv in ("id-dtype-mismatch", "float-ids"):
                 flags["idsOk"] = False
-            elif inv == "complex-prop" and g is not None:
-                g["nodeProps"] = (g["nodeProps"] or []) + [
+            elif inv in ("complex-prop", "complex-eprop") and g is not None:
+                side = "nodeProps" if inv == "complex-prop" else "edgeProps"
+                g[side] = (g[side] or []) + [
                     {"name": "cplx", "metaOk": False, "values": {"m": "-", "c": []}, "missing": None, "data": None}]
         res["g"] = g
         res["flags"] = flags
@@ -164,6 +175,9 @@ def _run_case(case):
                     ref_new = None
         res["ref_new_ok"] = ref_new is not None and "reject" not in ref_new
         res["final_is_new"] = (read0 == ref_new) if ref_new is not None else None
+        # what the target reads as after the call, whatever made the call fail
+        res["final_verdict"] = ("reject" if "reject" in read0 else "new" if (ref_new is not None and read0 == ref_new)
+                                else "old" if read0 == P.pre_read else "WRONG")
         # fault at every mutation
         points = []
         if case.get("faults", True):
@@ -185,7 +199,7 @@ def _run_case(case):
                                "executed_after": executed[k + 1:],       # mutations that still ran after the failing one
                                "diverged": executed[:k + 1] != ops[:k + 1],
                                "state": state_hash(K.abstract_state(snap)),
-                               "foreign_ok": K.foreign_same(res["pre_foreign"], K.foreign_part(snap)),
+                               "foreign_ok": K.foreign_preserved(res["pre_foreign"], K.foreign_part(snap), kind),
                                "read": read if verdict == "WRONG" else None})
         res["points"] = points
     return res
@@ -204,21 +218,39 @@ def tiny(salt=0, props=True, small=False):
 
 INVALID = ["len-node", "len-edge", "len-missing", "meta-absent-node", "meta-absent-edge",
            "id-dtype-mismatch", "float-ids", "complex-prop", "edge-2d-ids"]
+# inputs that are written completely and then rejected by validate_structure (=> ValueError AND roll-back)
+VALIDATION_FAILURES = ("len-node", "len-edge", "len-edge3", "len-missing", "len-emissing", "meta-absent-node",
+                       "meta-absent-edge", "edge-2d-ids")
+# the same defects on graphs without edges / without nodes (node side and edge side)
+INVALID_SPARSE = ["len-node", "len-edge", "len-edge3", "len-emissing", "meta-absent-node", "meta-absent-edge",
+                  "complex-prop", "complex-eprop"]
+
+
+def sparse_graph(shape, salt=1):
+    """edgeless (3 nodes, no edge), nodes-only with a node property, or completely empty graph"""
+    ids = [] if shape == "empty" else [3, 5, 9]
+    nprops = [{"name": "a", "kind": "f8"}] if shape == "nodes-only" else []
+    return {"id_dtype": "uint16", "ids": ids, "edges": [], "nprops": nprops, "eprops": [], "directed": True, "salt": salt}
 
 
 def gen_cases(ck):
     rng = ck.rng
     cases = []
     # bounded-exhaustive matrix on tiny graphs: format x store kind x pre-state x entry
-    kinds = ["mem", "local", "path"] if ck.quick else list(K.KINDS)
+    kinds = ["mem", "local", "path", "tilde-str"] if ck.quick else list(K.KINDS + K.TILDE_KINDS)
+    nvar = 0
     for fmt in (2, 3):
         for kind in kinds:
             for pre in ("empty", "foreign", "old", "old+foreign"):
                 for entry in ("write_arrays", "api_nx"):
-                    if ck.quick and entry == "api_nx" and (kind == "local" or pre == "foreign"):
+                    if ck.quick and entry == "api_nx" and (kind in ("local", "tilde-str") or pre == "foreign"):
+                        continue
+                    if ck.quick and kind == "tilde-str" and (fmt == 3 or "foreign" in pre):
                         continue
                     new = tiny(1, small=ck.quick) if entry == "write_arrays" else K.spatial_spec(rng, salt=1)
-                    cases.append({"fmt": fmt, "kind": kind, "sib": "foreign" in pre,
+                    nvar += 1
+                    cases.append({"fmt": fmt, "kind": kind,
+                                  "sib": K.SIB_VARIANTS[nvar % len(K.SIB_VARIANTS)] if "foreign" in pre else False,
                                   "old": tiny(5, props=True, small=ck.quick) if "old" in pre else None,
                                   "entry": entry, "new": new, "overwrite": "old" in pre, "validation": True,
                                   "stream": "matrix"})
@@ -235,14 +267,19 @@ def gen_cases(ck):
         else:
             new = K.random_spec(rng, salt=i)
         has_old = entry != "write_dicts" and rng.random() < 0.5
-        cases.append({"fmt": rng.choice((2, 3)), "kind": rng.choice(K.KINDS), "sib": rng.random() < 0.5,
+        cases.append({"fmt": rng.choice((2, 3)), "kind": rng.choice(K.KINDS + K.TILDE_KINDS),
+                      "sib": rng.choice(K.SIB_VARIANTS) if rng.random() < 0.5 else False,
                       "old": K.random_spec(rng, small=True, salt=100 + i) if has_old else None,
                       "entry": entry, "new": new, "overwrite": has_old, "validation": True, "stream": "random"})
     # refused writes: a geff is there, no overwrite (no mutation may happen at all)
     for fmt in (2, 3):
-        for kind in ("mem", "path"):
-            cases.append({"fmt": fmt, "kind": kind, "sib": False, "old": tiny(5), "entry": "write_arrays",
-                          "new": tiny(1), "overwrite": False, "validation": True, "stream": "refused"})
+        for kind in ("mem", "path", "tilde-str", "tilde-path"):
+            for entry in ("write_arrays", "write_dicts"):
+                if entry == "write_dicts" and kind in ("mem", "path") and ck.quick:
+                    continue
+                cases.append({"fmt": fmt, "kind": kind, "sib": False, "old": tiny(5, small=True), "entry": entry,
+                              "new": tiny(1, small=True), "overwrite": False, "validation": True, "stream": "refused",
+                              "faults": False})
     # invalid inputs, validation on (+ faults during the clean-up for a subset)
     for bad in INVALID:
         for fmt in (2, 3):
@@ -251,11 +288,34 @@ def gen_cases(ck):
                     if ck.quick and pre == "empty" and kind != "mem":
                         continue
                     entry = "write_arrays"
-                    cases.append({"fmt": fmt, "kind": kind, "sib": "foreign" in pre,
+                    nvar += 1
+                    cases.append({"fmt": fmt, "kind": kind,
+                                  "sib": K.SIB_VARIANTS[nvar % len(K.SIB_VARIANTS)] if "foreign" in pre else False,
                                   "old": tiny(5) if "old" in pre else None, "entry": entry,
                                   "new": {**tiny(1), "invalid": bad}, "overwrite": "old" in pre,
                                   "validation": True, "stream": "invalid",
                                   "faults": (not ck.quick) or (bad in ("len-node", "meta-absent-edge") and kind == "mem")})
+    # roll-back next to every kind of unrelated content (array only, group only, nested group with arrays,
+    # group + array, root attributes only), on the kinds where delete_geff may remove the whole root
+    for fmt in (2, 3):
+        for kind in (("path", "tilde-path") if ck.quick else ("path", "str", "tilde-str", "tilde-path", "mem", "local")):
+            for var in K.SIB_VARIANTS:
+                for bad, pre in (("len-node", "foreign"), ("meta-absent-edge", "old+foreign")):
+                    if ck.quick and kind == "tilde-path" and (bad, fmt) not in (("len-node", 2), ("meta-absent-edge", 3)):
+                        continue
+                    cases.append({"fmt": fmt, "kind": kind, "sib": var, "old": tiny(5, small=True) if "old" in pre else None,
+                                  "entry": "write_arrays", "new": {**tiny(1, small=True), "invalid": bad},
+                                  "overwrite": "old" in pre, "validation": True, "stream": "rollback", "faults": False})
+    # invalid node-side and edge-side inputs on edgeless / nodes-only / empty graphs: rejected AND rolled back
+    for bad in INVALID_SPARSE:
+        for shape in ("edgeless", "nodes-only", "empty"):
+            for fmt in (2, 3):
+                for kind in (("mem",) if ck.quick else ("mem", "path", "local")):
+                    if ck.quick and ((fmt == 3) != (shape == "nodes-only")) and bad not in ("len-edge3", "meta-absent-edge"):
+                        continue
+                    cases.append({"fmt": fmt, "kind": kind, "sib": "group" if kind != "mem" else False, "old": None,
+                                  "entry": "write_arrays", "new": {**sparse_graph(shape), "invalid": bad},
+                                  "overwrite": False, "validation": True, "stream": "invalid-sparse", "faults": False})
     # corpus
     d = common.VERIF / "harness" / "corpus" / PROP
     corpus = [json.loads(f.read_text()) for f in sorted(d.glob("*.json"))] if d.is_dir() else []
@@ -268,7 +328,7 @@ def model_request(res):
     g = dict(res["g"])
     g.update(res.get("flags", {}))
     inv = c["new"].get("invalid")
-    validation_fails = inv in ("len-node", "len-edge", "len-missing", "meta-absent-node", "meta-absent-edge", "edge-2d-ids")
+    validation_fails = inv in VALIDATION_FAILURES
     g["valid"] = not validation_fails
     return {"op": "trace", "fmt": c["fmt"], "kind": K.model_kind(c["kind"]), "docs": K.docs_for(c["fmt"]),
             "pre": res["pre"], "g": g, "entry": K.model_entry(c["entry"]),
@@ -313,7 +373,9 @@ def run(ck: common.Check):
                "invalid-input kind); streams: corpus, bounded matrix on 3-node graphs (format x kind x pre-state x "
                "{write_arrays, geff.write}), seeded random graphs (0-6 nodes, 0-3 node / 0-2 edge properties of "
                "9 kinds incl. var-length, strings, all-fill arrays, missing masks) through all 5 entry points, refused "
-               "writes, 9 kinds of invalid input; every case is run once per store mutation with that mutation "
+               "writes (also on home-relative ~/… targets), 9 kinds of invalid input, roll-back next to 5 kinds of unrelated "
+               "content (array / group / nested group / both / root attributes), 8 kinds of invalid node- and edge-side input on "
+               "edgeless, nodes-only and empty graphs; the target is classified after EVERY failed call; every case is run once per store mutation with that mutation "
                "failing (all k, not a sample); a case is non-trivial when the write performs at least one mutation")
     cases = gen_cases(ck)
     results = common.pmap(run_case, cases, chunksize=1)
@@ -339,6 +401,15 @@ def run(ck: common.Check):
         ck.case({k: v for k, v in c.items()}, tag=tag, nontrivial=bool(r["ops"]))
         inv = c["new"].get("invalid")
         # ---- oracle on the fault-free run
+        if r.get("literal_tilde"):
+            ck.fail("C05:tilde-not-expanded", "a home-relative target was handed to zarr unexpanded (literal '~' directory created)",
+                    c, None, "everything under the expanded path")
+        if r["out0"] != "ok" and (r["final_verdict"] == "WRONG" or (r["final_verdict"] == "old" and not r["pre_read_ok"])):
+            # a write that fails for ANY reason (rejected input, exceptions raised by zarr itself, …)
+            ck.fail("C05:failed-write-wrong-graph", f"{c['entry']} on a {c['kind']} store ended with {r['out0']} after "
+                    f"{len(r['ops'])} store mutations and leaves a target that validate_structure + read_to_memory accept but that "
+                    f"reads neither as the graph being written nor as the previous graph", c,
+                    {"out": r["out0"], "mutations": len(r["ops"])}, "rejected | new graph | previous graph")
         if inv is None:
             if c.get("old") is not None and not c.get("overwrite"):
                 if r["out0"] != "FileExistsError" or r["ops"]:
@@ -357,8 +428,7 @@ def run(ck: common.Check):
                     ck.fail("C05:invalid-input-leaves-valid-looking-store",
                             f"after the rejected write ({inv}: {r['out0']}) the target is accepted by validate_structure + read_to_memory",
                             c, {"out": r["out0"]}, "rejected")
-                is_validation_failure = inv in ("len-node", "len-edge", "len-missing", "meta-absent-node",
-                                                "meta-absent-edge", "edge-2d-ids")
+                is_validation_failure = inv in VALIDATION_FAILURES
                 if is_validation_failure:
                     left = sorted(k for k in r["final_geff"])
                     if any(not k.endswith("#geff") for k in left):
@@ -367,11 +437,16 @@ def run(ck: common.Check):
                     if any(k.endswith("#geff") for k in left):
                         ck.fail("C05:cleanup-leaves-metadata", f"after the validation failure ({inv}) the geff attribute is still there",
                                 c, left[:12], "no geff attribute")
-                    if r["final_foreign"] != r["pre_foreign"]:
-                        pf, ff = r["pre_foreign"], r["final_foreign"]
-                        diff = sorted(k for k in set(pf) | set(ff) if pf.get(k) != ff.get(k))
-                        ck.fail("C05:cleanup-damages-foreign", f"after the validation failure ({inv}) foreign content changed: {diff[:6]}",
-                                c, diff[:12], "foreign members and attributes unchanged")
+                    pf, ff = r["pre_foreign"], r["final_foreign"]
+                    if K.foreign_members(pf) != K.foreign_members(ff):
+                        diff = sorted(k for k in set(pf) | set(ff) if pf.get(k) != ff.get(k) and k != "#rootattrs")
+                        ck.fail("C05:cleanup-destroys-foreign-member", f"the roll-back after the validation failure ({inv}) on a "
+                                f"{c['kind']} store destroyed / changed unrelated members of the container: {diff[:6]}",
+                                c, diff[:12], "unrelated members byte-identical")
+                    elif pf != ff and (K.foreign_members(pf) or c["kind"] in ("mem", "local")):
+                        # (a str/Path root that holds nothing but the geff is removed as a whole, with its attributes)
+                        ck.fail("C05:cleanup-changes-foreign-attributes", f"the roll-back after the validation failure ({inv}) changed "
+                                f"foreign root attributes", c, [pf.get("#rootattrs"), ff.get("#rootattrs")], "unchanged")
         # ---- oracle on every fault point
         for p in r["points"]:
             n_points += 1
@@ -386,7 +461,7 @@ def run(ck: common.Check):
                 ck.fail("C05:fault-swallowed", f"the storage failure at mutation {p['k']} was swallowed: the call returned normally "
                         f"but the store reads as {p['verdict']}", cc, p["verdict"], "exception, or the complete new graph")
             if not p["foreign_ok"]:
-                ck.fail("C05:crash-damages-foreign", f"storage failure at mutation {p['k']} changed foreign members", cc, None,
+                ck.fail("C05:crash-destroys-foreign-member", f"storage failure at mutation {p['k']} changed foreign members", cc, None,
                         "foreign members byte-identical")
         # ---- correspondence with the model
         m = model_of.get(id(r))
@@ -465,21 +540,29 @@ def replay(rp):
     bad = False
     inv = c["new"].get("invalid")
     print(json.dumps({"out": r["out0"], "mutations": len(r["ops"]), "final_read_ok": r["final_read_ok"],
-                      "final_is_new": r["final_is_new"], "geff_keys_left": sorted(r["final_geff"])[:8]}))
+                      "final_is_new": r["final_is_new"], "final_verdict": r["final_verdict"],
+                      "geff_keys_left": sorted(r["final_geff"])[:8],
+                      "foreign_preserved": K.foreign_preserved(r["pre_foreign"], r["final_foreign"], c["kind"])}))
     if k is not None:
         p = r["points"][k]
         print(json.dumps({"fail_at": k, "op": r["ops"][k], "outcome": p["out"], "verdict": p["verdict"], "read": p["read"]}))
         bad = p["verdict"] == "WRONG" or (p["verdict"] == "old" and not r["pre_read_ok"]) or not p["foreign_ok"] or (
             p["out"] == "ok" and p["verdict"] != "new")
+    if r.get("literal_tilde"):
+        bad = True
+    if r["out0"] != "ok" and (r["final_verdict"] == "WRONG" or (r["final_verdict"] == "old" and not r["pre_read_ok"])):
+        bad = True
+    if k is not None:
+        pass
     elif inv is None:
         if c.get("old") is not None and not c.get("overwrite"):
-            bad = r["out0"] != "FileExistsError" or bool(r["ops"])
+            bad = bad or r["out0"] != "FileExistsError" or bool(r["ops"])
         else:
-            bad = r["out0"] != "ok" or not r["final_is_new"]
+            bad = bad or r["out0"] != "ok" or not r["final_is_new"]
     else:
         left = sorted(r["final_geff"])
-        bad = r["out0"] == "ok" or (r["final_read_ok"] and not (c.get("old") is not None and not r["ops"]))
-        if inv in ("len-node", "len-edge", "len-missing", "meta-absent-node", "meta-absent-edge", "edge-2d-ids"):
-            bad = bad or bool(left) or r["pre_foreign"] != r["final_foreign"]
+        bad = bad or r["out0"] == "ok" or (r["final_read_ok"] and not (c.get("old") is not None and not r["ops"]))
+        if inv in VALIDATION_FAILURES:
+            bad = bad or bool(left) or not K.foreign_preserved(r["pre_foreign"], r["final_foreign"], c["kind"])
     print("REPLAY: property FAILS on this input" if bad else "REPLAY: property holds on this input")
     return 1 if bad else 0
